@@ -136,6 +136,10 @@ def events(facts, inter, body, depth=3, _seen=None):
                         ev.add("kind:" + a["variant"])
                     if a["adt"] == "path::VfsFileType":
                         ev.add("filetype:" + a["variant"])
+                    # `e.kind() != ErrorKind::AlreadyExists` builds the variant it compares with, `match e.kind() { AlreadyExists => ..`
+                    # switches on it: the same test of the OS error's kind
+                    if a["adt"].endswith("io::ErrorKind") or a["adt"].endswith("io::error::ErrorKind"):
+                        ev.add("match:" + a["variant"])
                 if st.kind == "assign":
                     for o in st.rv.ops:
                         _lits(o, ev)
@@ -162,6 +166,37 @@ def events(facts, inter, body, depth=3, _seen=None):
                             # compared) or `matches!(.., File)` (a switch)
                             ev.add(("filetype:" if set(dt[2]) == {"File", "Directory"} else "match:") + dt[2][v])
     return ev
+
+
+def ordered_calls(facts, inter, body):
+    """the "comes first" relation {(x, y)} between crate-level calls that occur exactly once in the body (closures and async blocks
+    included; two calls are compared when they sit in the same code body and one dominates the other) — the basis of the twin
+    *order* comparison: which of two effects comes first is behaviour when the first can fail"""
+    seen = {}
+    cfgs = {}
+    for cb in inter.code_bodies(body):
+        cfgs[cb.id] = get_tracer(facts, cb).cfg
+        for blk in cb.blocks:
+            if blk.cleanup:
+                continue
+            t = blk.term
+            if t.kind == "call" and t.func.kind == "fn" and t.callee() and keep_call(facts, t):
+                sh = mapname(short(t.callee()))
+                if sh in PLUMBING or short(t.callee()) in PLUMBING:
+                    continue
+                # (told apart by the parameter they are called on: `destination.create_dir()` and `dest_path.create_dir()`)
+                if t.args:
+                    r0 = norm(get_tracer(facts, cb).operand(t.args[0]))
+                    if r0[0] == "arg":
+                        sh = "%s(arg %d)" % (sh, r0[1])
+                seen.setdefault(sh, []).append((cb.id, blk.idx))
+    once = {k: v[0] for k, v in seen.items() if len(v) == 1}
+    rel = set()
+    for x, (cx, bx) in once.items():
+        for y, (cy, by) in once.items():
+            if x != y and cx == cy and bx != by and cfgs[cx].dominates(bx, by):
+                rel.add((x, y))
+    return set(once), rel
 
 
 def _lit_events(text, ev):
@@ -230,6 +265,17 @@ def twin_rules(facts, rep, D):
             if not diff:
                 rep.ob("R15.2", ab.id, "twin %s::%s agrees with its sync counterpart" % (aty.split("::")[-1], k), True,
                        "%d events agree" % len(es & ea), ab.span)
+            # same events in the same order: for two calls that occur once in each twin, the one that comes first in the sync
+            # version comes first in the async one (`destination.create_dir()` before the source walk is opened: when the walk
+            # fails, one world has left an empty destination behind and the other has not)
+            if sty == "path::VfsPath":
+                s_once, s_rel = ordered_calls(facts, inter, sb)
+                a_once, a_rel = ordered_calls(facts, inter, ab)
+                swapped = sorted((x_, y_) for (x_, y_) in s_rel if (y_, x_) in a_rel and x_ in a_once and y_ in a_once)
+                n += 1
+                rep.ob("R15.2", ab.id, "twin %s::%s makes its calls in the sync order" % (aty.split("::")[-1], k), not swapped, "" if not swapped else
+                       "%s comes before %s in %s and after it in the async twin: when the first of the two fails, the two worlds leave "
+                       "different things behind" % (swapped[0][0], swapped[0][1], sb.id), ab.span)
             for dv in diff:
                 rep.ob("R15.2", ab.id, "twin %s::%s: %s" % (aty.split("::")[-1], k, dv), False,
                        "the async twin differs from %s in the event `%s`: a behaviour (or a fix) present in one world only" % (sb.id, dv), ab.span)
